@@ -59,6 +59,8 @@ class C17(Cfg):
         Here: only well-formedness of the observations."""
         res = []
         for op, out in zip(ops[1:], outs[1:]):
+            # a search that fails is named by the harness (`search-fails-…`); anything else that fails is reported here
+            if out.startswith("err:") and op.split(" ")[0] in ("q", "qn"): continue
             if out == "bad-op" or out.startswith("err:") or out.startswith("case-failed"):
                 res.append(("malformed-or-failed-operation", "%s -> %s" % (op, out))); break
         return res
